@@ -2,8 +2,9 @@
    Model: model/Http1Req.v -- parse_stream V = generic request-stream skeleton (read the request line and
    the (obs-fold joined) header lines as bfe_net/textproto does, validate, read the body according to the
    framing decision, repeat).  V_bfe = validators as coded in ReadRequest / ReadMIMEHeaderAndKeys /
-   fixTransferEncoding / fixLength; V_ref = RFC 7230 (method token, HTTP/d.d, no whitespace before the first
-   field, field-name = token, Transfer-Encoding exactly "chunked", all Content-Length values the same 1*DIGIT). *)
+   fixTransferEncoding / fixLength AFTER the repairs (/repo 17390c5 fe4368d 9b4c453 a2f18b3 e9e83bf a604fb2);
+   V_ref = RFC 7230 (method token, HTTP/d.d, no whitespace before the first field, field-name = token,
+   Transfer-Encoding exactly "chunked", all Content-Length values the same 1*DIGIT). *)
 From Coq Require Import List ZArith Bool.
 From Bfe Require Import lib.Val lib.Bytes model.Http1Req proofs.Http1ReqProofs run.RunC24.
 Import ListNotations.
@@ -21,41 +22,65 @@ Theorem skeleton_refinement :
 Proof. exact skeleton_refinement_gen. Qed.
 Print Assumptions skeleton_refinement.
 
-(* Pointwise refinement for BFE: a request head that is in none of the six finding classes
-   (head_class = 0: method is a token and version is HTTP/d.d; no whitespace before the first field; every
-   field name is a token; Transfer-Encoding, if present, is exactly "chunked"; no empty Content-Length)
-   and that BFE's validators accept is accepted by the RFC 7230 validators with the same result. *)
+(* Pointwise refinement for BFE: a request head that is in neither of the two remaining finding classes
+   (head_class = 0: the version is HTTP/d.d whenever ParseHTTPVersion accepts it; no header line with an
+   empty field name) and that BFE's validators accept is accepted by the RFC 7230 validators with the same
+   result.  Whitespace before the colon, non-token names, Transfer-Encoding other than exactly "chunked",
+   whitespace before the first field, non-token methods, empty / conflicting / signed Content-Length need
+   no guard any more: the repaired code rejects them. *)
 Theorem C24_head_refinement :
   forall hd m, head_class hd = 0 -> validate V_bfe hd = inr m -> validate V_ref hd = inr m.
 Proof. exact head_refine. Qed.
 Print Assumptions C24_head_refinement.
 
-(* Headline (guarded): for EVERY byte stream in which no request head that BFE reaches falls in a finding
-   class, every request the modelled ReadRequest loop accepts is the request the RFC 7230 reference parser
-   finds at the same place: same method, target, version, same non-framing fields (canonical names), same
-   body and the same end offset -- so BFE accepts nothing at a point where the reference parser rejects.
-   (The unguarded statement is false: see C24_refuted.) *)
+(* The framing decision itself (Transfer-Encoding / Content-Length => chunked | length n) refines RFC 7230's
+   on EVERY header block, unconditionally. *)
+Theorem C24_framing_refinement : forall h fr, bfe_frame h = inr fr -> ref_frame h = inr fr.
+Proof. exact frame_refine. Qed.
+Print Assumptions C24_framing_refinement.
+
+(* Every request head the repaired BFE accepts has: a token method, no whitespace before the first field,
+   token field names only, a Transfer-Encoding that is absent or exactly one "chunked", and, when
+   Content-Length is present without chunked, framing by its (single-valued) 1*DIGIT value. *)
+Theorem C24_accepted_wellformed : forall hd m, validate V_bfe hd = inr m ->
+  is_token (r_method m) = true /\ h_leadws hd = false /\ names_ok (r_fields m) = true /\
+  te_decision (r_fields m) <> None /\
+  (get_all s_cl (r_fields m) <> [] -> r_framing m = FrChunked \/
+     exists n, parse_dec (cl_first (get_all s_cl (r_fields m))) = Some n /\ r_framing m = FrLen n).
+Proof. exact C24_accepted_wellformed_lemma. Qed.
+Print Assumptions C24_accepted_wellformed.
+
+(* Headline (guarded by the two remaining classes): for EVERY byte stream in which no request head that
+   BFE reaches has a lax version or an empty-name line, every request the modelled ReadRequest loop accepts
+   is the request the RFC 7230 reference parser finds at the same place: same method, target, version, same
+   non-framing fields (canonical names), same body and the same end offset -- so BFE accepts nothing at a
+   point where the reference parser rejects. *)
 Theorem C24_partial : forall s,
   stream_class (S (length s)) s = 0 -> prop_core s (fst (bfe_run s)) = true.
 Proof. exact C24_partial_lemma. Qed.
 Print Assumptions C24_partial.
 
-(* The same through the executable predicates the harness evaluates on the implementation's output. *)
+(* Central theorem, through the executable predicates the harness evaluates on the implementation's output:
+   every input is a byte string (wf = VB s); outside the finding classes the model satisfies the property. *)
 Theorem C24_prop_of_model : forall s,
   kf_C24 (VB s) = 0 -> prop_C24 (VB s) (run_C24 (VB s)) = true.
 Proof. exact C24_prop_of_model_lemma. Qed.
 Print Assumptions C24_prop_of_model.
 
-(* The full property is refuted for the code as it is: one witness stream per finding class
-   (1 "X-A : 1"; 2 "X(bad): 1"; 3 "Transfer-Encoding: identity, chunked" + Content-Length;
-    4 whitespace before the first field; 5 "HTTP/+1.1"; 6 empty Content-Length) on which the model of BFE
-   accepts a request that the reference parser rejects.  Each was confirmed on the real ReadRequest
-   (corpus/C24/witness.case). *)
-Theorem C24_refuted :
-  refuted w_wscolon 1 /\ refuted w_nontoken 2 /\ refuted w_te 3 /\ refuted w_leadws 4 /\
-  refuted w_version 5 /\ refuted w_emptycl 6.
+(* The unguarded property is still refuted by the two remaining classes: (2) ": v" -- a line with an empty
+   field name is skipped by textproto (pinned by its baseline test TestReadMIMEHeaderNoKey); (5) "HTTP/+1.1"
+   -- ParseHTTPVersion accepts signs / leading zeros / multi-digit numbers (HTTP/3.14 is pinned by the
+   baseline test TestParseHTTPVersion).  Confirmed on the real ReadRequest (corpus/C24/witness.case). *)
+Theorem C24_refuted : refuted w_emptyname 2 /\ refuted w_version 5.
 Proof. exact C24_refuted_lemma. Qed.
 Print Assumptions C24_refuted.
+
+(* The former witnesses of the repaired classes ("X-A : 1", "X(bad): 1", "Transfer-Encoding: identity, chunked",
+   " Host: a" as first line, "Content-Length: ") are now rejected without accepting any request. *)
+Theorem C24_fixed : 
+  rejected w_wscolon 12 /\ rejected w_nontoken 12 /\ rejected w_te 7 /\ rejected w_leadws 6 /\ rejected w_emptycl 8.
+Proof. exact C24_fixed_lemma. Qed.
+Print Assumptions C24_fixed.
 
 (* After the fix (/repo 17390c5): two Content-Length fields whose values differ are rejected. *)
 Theorem C24_conflicting_content_length_rejected : forall h a b r,
